@@ -36,7 +36,7 @@ THEOREMS = {
     'C12': [('ChessVerif.Props.C12', ['Chess.Props.C12_kpk', 'Chess.Props.C12_mirror', 'Chess.Props.C12_certificate', 'Chess.Props.C12_index', 'Chess.Props.C12_normalize'])],
     'C13': [('ChessVerif.Props.C13', ['Chess.Props.C13_geometry', 'Chess.Props.C13_normSq_mirror', 'Chess.Props.C13_combine_neg', 'Chess.Props.C13_phase_symm'])],
     'C14': [('ChessVerif.Props.C14', ['Chess.Props.C14_cache_transparent', 'Chess.Props.C14_bounded', 'Chess.Props.C14_constants', 'Chess.Props.C14_cap_partial'])],
-    'C15': [('ChessVerif.Props.C15', ['Chess.Props.C15_capture_quiet_full', 'Chess.Props.C15_quiet', 'Chess.Props.C15_castling', 'Chess.Props.C15_capture_rules'])],
+    'C15': [('ChessVerif.Props.C15', ['Chess.Props.C15_capture_quiet_full', 'Chess.Props.C15_gives_check_noncastle', 'Chess.Props.C15_gives_check', 'Chess.Props.C15_gives_check_ordinary', 'Chess.Props.C15_quiet', 'Chess.Props.C15_castling', 'Chess.Props.C15_capture_rules'])],
     'C17': [('ChessVerif.Props.C17', ['Chess.Props.C17_roundtrip', 'Chess.Props.C17_matcher_piece', 'Chess.Props.C17_matcher_pawn', 'Chess.Props.C17_castling'])],
     'C18': [('ChessVerif.Props.C18', ['Chess.Props.C18_tables', 'Chess.Props.C18_anchors', 'Chess.Props.C18_pieces', 'Chess.Props.C18_key_noep', 'Chess.Props.C18_key'])],
     'C16': [('ChessVerif.Props.C16', ['Chess.Props.C16_encoding', 'Chess.Props.C16_encoding_move', 'Chess.Props.C16_castle_code', 'Chess.Props.C16_moveinfo',
@@ -1409,7 +1409,7 @@ def check_C06(ctx):
         return None
     ctx.cov['rule'] = (f'part 1: stop() called at exactly node visit k (k in {ks[:8]}... {len(ks)} values) and at go-entry / after-init / iteration-end / before-bestmove on capture-rich and corpus '
                        'positions; the hook trace must show no node expanded after the call, a bounded number of unwinding visits and exactly one bestmove.  part 2: the real two-thread UCI front end '
-                       'driven through pipes with the search thread parked (VERIF_PARK) at each schedule point — incl. right after its k-th clock read (steady_clock::now interposed by the harness) — while stop/isready arrive: one bestmove within 2 s of the stop, readyok while parked.  '
+                       'driven through pipes with the search thread parked (VERIF_PARK) at each schedule point — incl. right after its k-th clock read (steady_clock::now interposed by the harness) — while stop/isready arrive, and a second `go` sent the moment the first `bestmove` is visible (the writing thread parked right after the write): one bestmove within 2 s of the stop, readyok while parked.  '
                        'part 3: the same sessions under ThreadSanitizer')
     judge(ctx, runs, 'stop handling (deterministic schedule points)', fail1)
     # part 2: real threads
@@ -1466,6 +1466,18 @@ def check_C06(ctx):
                                    f'# run: VERIF_PARK={park} cppdrv uci\nposition fen {fen}\n{go}\nstop   # {("sent the moment info line #%d appears" % onpark[1]) if isinstance(onpark, tuple) else ("sent when the search thread reports PARKED" if onpark else "sent back to back with go")}\nisready\n'
                                    f'# observed: bestmoves={r["bestmoves"]} stop_t={r["stop_t"]:.3f} parked_t={r["parked_t"]} readyok_t={r["readyok_t"]}\n', True,
                                    ident=f'{fen} {park} {go} {onpark} {why}')
+    # part 2b: the GUI's next `go` arrives the moment the previous `bestmove` is visible, while the thread that wrote it is still parked
+    # right after the write (output interposed by the harness): the second `go` must be answered as well
+    START = 'rnbqkbnr/pppppppp/8/8/8/8/PPPPPPPP/RNBQKBNR w KQkq - 0 1'
+    for fen in [START] + list(heavy[:2 if ctx.tier == 'quick' else 6]):
+        r = uci_sched.go_again_session(exe, fen)
+        ctx.cov['evaluations'] += 1
+        ctx.count('go_right_after_bestmove_sessions')
+        if len(r['bestmoves']) != 2:
+            V.report_violation(ctx, f"a `go` sent the moment the previous bestmove became visible was answered by {len(r['bestmoves']) - r['first']} bestmove lines (expected 1)",
+                               f'# run: VERIF_PARK=8:1:500 cppdrv uci   (the thread that writes `bestmove` is parked right after the write)\nposition fen {fen}\ngo depth 1\n'
+                               f'# … as soon as `bestmove` appears:\nposition fen {fen}\ngo depth 1\n# observed bestmove lines: {r["bestmoves"]} parked={r["parked"]}\n', True,
+                               ident='go-again ' + fen)
     # part 3: ThreadSanitizer (supporting evidence)
     try:
         texe, _ = vbuild.build_harness('tsan')
@@ -1551,6 +1563,10 @@ def check_C08(ctx):
         texts.append('\n'.join(ops) + '\n')
     # back-rank threats where the side that is a queen down after a capture can only be saved by a QUIET move (making luft, stepping
     # aside): pruning of quiet moves at the frontier must not turn "all searched replies get mated" into a mate announcement
+    # … and positions where the saving reply is a quiet PROMOTION (a push to the last rank is not a capture, but it is not a quiet move)
+    promosave = ['6k1/5ppp/5n2/3q4/3Q4/8/1p3PPP/4R1K1 w - - 0 1', '6k1/5ppp/8/3q4/3Q4/8/p4PPP/3R2K1 w - - 0 1', '2k5/8/8/8/8/8/1p3PPP/R5K1 w - - 0 1']
+    for fen in promosave + [mirror_fen(f) for f in promosave]:
+        texts.append(f'newgame\npos {fen}\n' + ''.join(f'go depth {d}\n' for d in (1, 2, 3, 4)))
     quietsave = ['6k1/5ppp/5n2/3q4/3Q4/8/5PPP/4R1K1 w - - 0 1', '6k1/5ppp/5n2/3r4/3Q4/8/5PPP/4R1K1 w - - 0 1', '6k1/5ppp/5b2/3q4/3Q4/8/5PPP/3R2K1 w - - 0 1',
                  '5rk1/5ppp/8/3q4/3Q4/8/5PPP/3RR1K1 w - - 0 1', '2r3k1/5ppp/8/8/3n4/4B3/5PPP/2R3K1 w - - 0 1']
     for fen in quietsave + [mirror_fen(f) for f in quietsave]:
@@ -1680,18 +1696,63 @@ def check_C10(ctx):
     texts.append('pos 7k/P7/8/NNN5/NNN5/NNNB4/8/K7 w - - 0 1\ndo a7a8n\nmoves\nstate\nundo\nmoves\ndo a7a8n\ngo depth 2\n')
     texts.append('pos 7k/P7/8/BBB5/BBB5/BBBN4/8/K7 w - - 0 1\ndo a7a8b\nmoves\nundo\npos 7k/P7/8/RRR5/RRR5/RRRN4/8/K7 w - - 0 1\ndo a7a8r\nmoves\nundo\n'
                  'pos 7k/P7/8/QQQ5/QQQ5/QQ1N4/8/K7 w - - 0 1\ndo a7a8q\nmoves\ngo depth 1\n')
+    # clock-limited searches in games that are already very long when they are set up (full-move numbers far beyond the key-history
+    # capacity): whatever the time manager or the search index by game ply must not run off a table
+    for fm in (399, 400, 460, 1000, 4000):
+        texts.append(f'pos r4rk1/pp3ppp/2n1b3/3p4/3P4/2PB1N2/P4PPP/R4RK1 w - - 3 {fm}\ngo wtime 3000 btime 3000 winc 100 binc 100\ngo wtime 500 btime 500 movestogo 2\n'
+                     f'pos r4rk1/pp3ppp/2n1b3/3p4/3P4/2PB1N2/P4PPP/R4RK1 b - - 3 {fm}\ngo wtime 400 btime 400\n')
     # long forcing lines and ordinary sessions with ucinewgame cycles
     for fen in search_positions(ctx, 16 if ctx.tier == 'quick' else 200, rng):
         texts.append(f'pos {fen}\ngo depth {rng.randrange(2, 5)}\nnewgame\ngo depth 2\nplaybest\ngo depth 3 stopvisit {rng.randrange(1, 400)}\nplaybest\ngo nodes 3000\n')
     texts = [t if t.startswith('ztab') else 'ztab 5\n' + t for t in texts]
     runs = go_run(ctx, texts, timeout=1500)
     ctx.cov['rule'] = ('boundary sessions of every fixed-size buffer under ASan+UBSan: a 924-ply game then go (key history), depth limits 39..2^31-1 (per-iteration arrays), the 218-move position through '
-                       'generate/san/go (move lists, san buffer, searchmoves), promotions to a 10th knight/bishop/rook/queen (piece lists), ucinewgame cycles, stops; plus maxply+1 < StackInfo capacity '
+                       'generate/san/go (move lists, san buffer, searchmoves), clock-limited searches at full-move numbers 399..4000 (anything indexed by game ply), one session of the engine binary under valgrind memcheck (uninitialised reads), promotions to a 10th knight/bishop/rook/queen (piece lists), ucinewgame cycles, stops; plus maxply+1 < StackInfo capacity '
                        'from the hooks; the crash-free state lines are also compared with the model')
     judge(ctx, runs, 'memory safety on boundary sessions', c10_fail)
     # state/moves lines of these sessions against the model (the piece-list boundary shows up as sync/gen differences)
     V.three_way(ctx, [t for t in texts if 'a7a8' in t or 'R6R' in t], lambda l, s: l if l.startswith(('fen=', 'moves ', 'gen ')) else None, 'boundary positions',
                 spec_proj=lambda l, s: None)
+    # uninitialised reads are invisible to ASan/UBSan: one session of the engine binary itself under valgrind memcheck
+    try:
+        vexe = vbuild.build_engine('vg')
+        script = ('position startpos\ngo depth 3\nposition fen r5rk/5p1p/5R2/4B3/8/8/7P/7K w - - 0 1\ngo depth 4\nucinewgame\n'
+                  'position fen 6k1/5ppp/5n2/3q4/3Q4/8/5PPP/4R1K1 w - - 0 1\ngo depth 3 searchmoves d4d5 e1e8\ngo movetime 200\n'
+                  'position startpos moves e2e4 e7e5\ngo nodes 500\ngo wtime 1000 btime 1000 movestogo 5\n')
+        import threading as _th
+        pr = subprocess.Popen(['valgrind', '--error-exitcode=0', '--track-origins=no', '-q', vexe], stdin=subprocess.PIPE, stdout=subprocess.PIPE, stderr=subprocess.PIPE, text=True)
+        outl = []
+
+        def _rd():
+            for l in pr.stdout:
+                outl.append(l)
+        th = _th.Thread(target=_rd, daemon=True); th.start()
+        need = 0
+        for line in script.splitlines():
+            pr.stdin.write(line + '\n'); pr.stdin.flush()
+            if line.startswith('go'):
+                need += 1
+                lim = time.time() + 240
+                while time.time() < lim and sum(1 for l in outl if l.startswith('bestmove')) < need:
+                    time.sleep(0.05)
+        pr.stdin.write('quit\n'); pr.stdin.flush()
+        try:
+            pr.wait(timeout=60)
+        except subprocess.TimeoutExpired:
+            pr.kill()
+        verr = pr.stderr.read()
+        ctx.count('valgrind_go_commands', need)
+        ctx.cov['evaluations'] += need
+        bad = [l for l in verr.splitlines() if 'uninitialised' in l or 'Invalid read' in l or 'Invalid write' in l]
+        if bad:
+            i0 = verr.find(bad[0])
+            V.report_violation(ctx, 'valgrind memcheck on the engine binary: ' + bad[0].split('==')[-1].strip(),
+                               '# valgrind -q <engine binary built from this tree with -O1 -g>\n' + script + '# ' + verr[max(0, i0 - 100):i0 + 1800].replace('\n', '\n# ') + '\n', True,
+                               ident='valgrind ' + bad[0][-80:])
+    except FileNotFoundError:
+        ctx.notes.append('valgrind not available: uninitialised reads not explored')
+    except Exception as e:
+        ctx.notes.append('valgrind session skipped: ' + str(e)[:200])
     hunt_if_needed(ctx, ok, 'memory safety', lambda: None)
     uci_glue_extra('C10')(ctx)
     return V.finish(ctx, 'proof', thm('C10'),
